@@ -367,8 +367,8 @@ def run_mixed(n, seed, acc):
 
 
 def shards(tier, seed):
-    return [{'entry': e, 'i': i, 'n': 200 if tier == 'thorough' else 15} for i, e in enumerate(genfaulty.entries(exclude_ack=False))] + \
-        [{'mixed': True, 'i': 200 + i, 'n': 80 if tier == 'thorough' else 10} for i in range(8)]
+    return [{'entry': e, 'i': i, 'n': 200 if tier == 'thorough' else 30} for i, e in enumerate(genfaulty.entries(exclude_ack=False))] + \
+        [{'mixed': True, 'i': 200 + i, 'n': 80 if tier == 'thorough' else 20} for i in range(8)]
 
 
 def run_shard(spec, seed, tier):
